@@ -92,7 +92,9 @@ func c19Apply(e *Env, o c19Op) string {
 		if o.A%2 == 0 {
 			kb = ""
 		}
-		return run(&storagetypes.MsgInitProvider{Creator: a.String(), Ip: fmt.Sprintf("https://p%d.example.com", o.A), Keybase: kb, TotalSpace: 1_000_000_000_000 + o.N})
+		// addresses as operators type them: with a port, a path, one or several closing slashes, capitals
+		ip := fmt.Sprintf("https://p%d.example.com", o.A) + []string{"", "", ":3333", "/", "//", ":3333///", "/api/", "/API//v1"}[o.A%8]
+		return run(&storagetypes.MsgInitProvider{Creator: a.String(), Ip: ip, Keybase: kb, TotalSpace: 1_000_000_000_000 + o.N})
 	case "storage.AddClaimer":
 		return run(&storagetypes.MsgAddClaimer{Creator: a.String(), ClaimAddress: b.String()})
 	case "rns.Transfer":
